@@ -11,8 +11,17 @@ def has_hdl21_prims(pkg):
     return False
 
 
+def same_named_ext_modules(pkg):
+    """Two declared external modules of one name in different domains: well-formed VLSIR, but netlists have one flat name space
+    and the vlsirtools netlisters refuse such a package by design."""
+    names = [e.name.name for e in pkg.ext_modules]
+    return len(set(names)) != len(names)
+
+
 def pkg_features(pkg):
     f = set()
+    if same_named_ext_modules(pkg):
+        f.add("ext_modules_of_one_name_in_two_domains")
     if len(pkg.modules) >= 2:
         f.add("multi_module")
     if len(pkg.ext_modules):
@@ -43,7 +52,7 @@ def check_package(pkg, netlist=True):
         h.from_proto(pkg)
     except Exception as e:
         out.append(("from_proto_rejects:%s" % type(e).__name__, "from_proto raised %s: %s" % (type(e).__name__, str(e)[-300:])))
-    if netlist and not has_hdl21_prims(pkg):
+    if netlist and not has_hdl21_prims(pkg) and not same_named_ext_modules(pkg):
         for fmt in ("spice", "spectre"):
             try:
                 vlsirtools.netlist(pkg=pkg, dest=io.StringIO(), fmt=fmt)
